@@ -89,6 +89,17 @@ CLAIMED = {
         "overflow yields a Parse-class error without expression) is listed, not suppressed beyond its class.",
    design="DESIGN.md §7 C12",
    technique="Lean 4 theorems (line/column spec, offsets are token positions) + correspondence + implementation-only location oracles"),
+ "C06": dict(
+   text="Machine-checked theorems (Lean 4): the 26 signatures and registrations re-extracted from functions.rs/runtime.rs on each run equal the "
+        "documented ones; for every signature the validator returns the arity error on a wrong count, the invalid-type error of the first "
+        "offending position (naming declared and actual type) otherwise, and succeeds iff every argument satisfies its parameter type; "
+        "validity depends only on the argument's type class, which lifts the finite class-level decision table to all values; after a "
+        "successful validation no builtin reaches an unreachable!() arm and every result has the declared result type. The class-level "
+        "decision table (26 builtins x counts 0..declared+2 x 10 classes per position; ~109k cells, exhaustive in the thorough tier, all "
+        "cells up to 3 arguments in the quick tier) is run against the code, the model and an independent Python table of the specification.",
+   note="Trusted: Lean kernel; translate.py's regex extraction; the Python SPEC table as the reading of the function specification; `any` admits expression references (that is what is declared).",
+   design="DESIGN.md §7 C06",
+   technique="Lean 4 theorems (generic validator + class-level lifting + regenerated signature tables) + exhaustive class-level decision table against the code"),
 }
 
 NOT_YET = "check not built yet in this session (work in progress; see DESIGN.md §10 for the order of work)"
